@@ -36,6 +36,14 @@ Theorem C12R_repr_cannot_escape_short : forall printable, surrogates_unprintable
 Proof. exact repr_cannot_escape_short. Qed.
 Print Assumptions C12R_repr_cannot_escape_short.
 
+(* the escaping is safe for EITHER delimiter: the quote choice of repr is cosmetic, safety does not
+   depend on it (so a generator that always used one kind of quote with this escaping would be safe too) *)
+Theorem C12R_repr_body_any_quote : forall printable, surrogates_unprintable printable -> forall q s rest,
+  q = SQ \/ q = DQ -> valid s ->
+  lex_body q LNorm (repr_body printable q s ++ q :: rest) = Some (s, rest).
+Proof. exact lex_repr_body. Qed.
+Print Assumptions C12R_repr_body_any_quote.
+
 (* the form used by the emitter proofs: the literal is followed by some character other than
    a single quote *)
 Theorem C12R_repr_cannot_escape_before : forall printable, surrogates_unprintable printable -> forall c s rest,
